@@ -24,7 +24,7 @@ import models
 from engine import VAdt, VBool, VInt, VOpaque, VRef, VSeq, VStruct, VTuple, VUnit, Event, base_ty, vcopy, norm_ty
 from specutil import is_variant, run_reference, vid_of
 
-DEPTH_MUST_RUN = 16   # "reference chains at least 16 deep evaluate correctly"
+DEPTH_MUST_RUN = 17   # "reference chains at least 16 deep evaluate correctly": 16 references = 17 nested activations
 DEPTH_MUST_FAIL = 128  # generous cap for "too-deep chains end in an error" (the statement names no number)
 
 BINOPS = {  # opcode -> uninterpreted operation the VM must apply to (lhs, rhs)
